@@ -81,7 +81,7 @@ func keyIsDigestOf(key ssa.Value, desc ssa.Value) bool {
 		return true
 	}
 	if b, fld, ok := facts.FieldOf(facts.Resolve(key)); ok && fld == "Digest" {
-		if facts.Term(b) == facts.Term(desc) || facts.Resolve(b) == facts.Resolve(desc) {
+		if facts.Term(b) == facts.Term(desc) || facts.Resolve(b) == facts.Resolve(desc) || normTerm(b) == normTerm(desc) {
 			return true
 		}
 		// desc passed by value: load of the same cell
@@ -133,18 +133,31 @@ func c01VerifiedStore(c *core.Ctx) {
 				data, isLit := blobLiteralField(mu.Value, "data")
 				if isLit {
 					// (a) CheckDescriptor(desc, data) == nil dominates, key = desc.Digest
-					for _, cond := range facts.CondsAt(b) {
-						x, isNil, okc := facts.NilCheck(cond)
-						if !okc || !isNil {
-							continue
+					// in every calling context (the store may sit in a private helper that is
+					// handed the verified descriptor and bytes)
+					all, any := true, false
+					forEachCallContext(b, 2, func(conds []facts.Cond) {
+						any = true
+						found := false
+						for _, cond := range conds {
+							x, isNil, okc := facts.NilCheck(cond)
+							if !okc || !isNil {
+								continue
+							}
+							call, isCall := facts.Resolve(x).(*ssa.Call)
+							if !isCall || call.Call.StaticCallee() != cd {
+								continue
+							}
+							if sameBytes(call.Call.Args[1], data) && keyIsDigestOf(mu.Key, call.Call.Args[0]) {
+								found = true
+							}
 						}
-						call, isCall := facts.Resolve(x).(*ssa.Call)
-						if !isCall || call.Call.StaticCallee() != cd {
-							continue
+						if !found {
+							all = false
 						}
-						if sameBytes(call.Call.Args[1], data) && keyIsDigestOf(mu.Key, call.Call.Args[0]) {
-							how = "dominated by CheckDescriptor(desc, data) == nil with key = desc.Digest"
-						}
+					})
+					if any && all {
+						how = "dominated by CheckDescriptor(desc, data) == nil with key = desc.Digest"
 					}
 					// (c) (desc, data) = Buffer.GetBlob()
 					if how == "" {
@@ -601,6 +614,27 @@ func aliasesCaller(v ssa.Value, root *ssa.Function, depth int) string {
 	v = facts.ResolveFree(v)
 	switch x := v.(type) {
 	case *ssa.Parameter:
+		// a private helper is handed the bytes: owned if they are at every call site
+		h := x.Parent()
+		if sites := privateCallSites(h); len(sites) > 0 && h.Parent() == nil {
+			pi := -1
+			for i, q := range h.Params {
+				if q == x {
+					pi = i
+				}
+			}
+			if pi >= 0 {
+				for _, s := range sites {
+					if pi >= len(s.Common().Args) {
+						return "parameter " + x.Name()
+					}
+					if why := aliasesCaller(s.Common().Args[pi], outermost(s.Parent()), depth+1); why != "" {
+						return why
+					}
+				}
+				return ""
+			}
+		}
 		return "parameter " + x.Name()
 	case *ssa.Slice:
 		return aliasesCaller(x.X, root, depth+1)
